@@ -52,6 +52,7 @@ FinalEnvOK(t, exp) ==
 Verdict(t, exp) ==
   CASE t.outcome = "unstable" -> "REJECT"        \* re-rendering the parsed template gave a different result
     [] t.outcome = "snapdiff" -> "REJECT"        \* after a loop its variable / forloop is not bound to the very value it was bound to before (C12)
+    [] t.outcome = "pipediff" -> "REJECT"        \* a pipeline did not render as its steps taken one at a time through assign (C08)
     [] t.outcome = "addrleak" -> "REJECT"        \* the output holds a memory address (C02)
     [] t.outcome = "repdiff" -> "REJECT"         \* the same bindings in another Go representation gave a different result (C18)
     [] exp.status = "ok" -> IF t.outcome = "ok" /\ t.out = exp.out /\ FinalEnvOK(t, exp) THEN "ok" ELSE "REJECT"
